@@ -107,5 +107,10 @@ func (n *ncsStub) roundTrip(req *http.Request) (*http.Response, error) {
 	}
 	n.Posts = append(n.Posts, ncsPost{At: n.w.sim.Now(), Body: body, Path: req.URL.Path})
 	n.w.sim.Logf("ncs post %d bytes", len(body))
+	if n.mode == "drop_reply" && n.w.netr.Bool(0.5) {
+		// the service received and processed the POST; the reply is lost on the way back
+		n.w.sim.Stats["fault.ncs_reply_lost"]++
+		return nil, io.ErrUnexpectedEOF
+	}
 	return &http.Response{StatusCode: 200, Status: "200 OK", Body: io.NopCloser(bytes.NewReader(nil)), Header: http.Header{}, Request: req, ProtoMajor: 1, ProtoMinor: 1}, nil
 }
